@@ -37,7 +37,8 @@ InDomUn(op, a, p) ==
        [] op = "abs" -> FLt(Tiny, FAbs(a.re))
        [] OTHER -> TRUE
 InDomBin(op, a, b) ==
-  /\ Tame(a) /\ Tame(b)
+  \* the remainder is piecewise linear: it is judged for large operands too (quotients far beyond the 32-bit integers)
+  /\ IF op = "rem" THEN TameBy(a, Huge) /\ TameBy(b, Huge) ELSE Tame(a) /\ Tame(b)
   /\ (op \in {"div", "rem"} => FLt(Small, FAbs(b.re)))
   \* the truncated quotient is locally constant except where a/b crosses an integer; an EXACT integer quotient is
   \* still unambiguous (trunc is exact), quotients within 1e-6 of an integer are not judged
